@@ -52,9 +52,10 @@ TOL9 = "1/1000000000"
 TOL6 = "1/1000000"
 ATYPES = [("P", 0.47, 72.0), ("Q", 0.41, 36.0), ("S", 0.34, 12.0)]
 BOND_LENGTHS = [0.2, 0.25, 0.3, 0.35, 0.47]
-FINDING_SHAPES = ("vsn-com-as-cog", "template-without-bonds-ignored", "user-volume-two-templates-one-name")
+FINDING_SHAPES = ("vsn-com-as-cog", "template-without-bonds-ignored")
 # fixed in /repo (see known_findings.txt `fixed:`), therefore always generated:
-#   unoptimised-first-template-crashes (be7ff96), user-volume-lost-other-hash (07473a8)
+#   unoptimised-first-template-crashes (be7ff96), user-volume-lost-other-hash (07473a8),
+#   user-volume-two-templates-one-name (b564a77)
 
 
 _OVERRIDE = None      # set while a case with a recorded "probe" list is (re)generated
@@ -241,18 +242,6 @@ def gen_build_file(rng, spec):
         want_tmpl = 0.3 < roll < 0.75
         if len(same_name) > 1 and any(b[0] == "volume" and b[1] == kind["resname"] for b in blocks):
             want_vol = False      # one [ volumes ] line per residue name (it addresses every kind of that name)
-        if len(same_name) > 1 and not enabled("user-volume-two-templates-one-name"):
-            # BuildDirector.resnames_to_hash keeps ONE hash per residue name: with two [ template ] blocks of one
-            # name the [ volumes ] entry reaches only the last one (documented finding, gated): keep such a name
-            # to either one template or a volume
-            has_t = any(b[0] == "template" and kinds[b[1]]["resname"] == kind["resname"] for b in blocks)
-            has_v = any(b[0] == "volume" and b[1] == kind["resname"] for b in blocks)
-            if has_t and has_v:
-                want_tmpl = False
-            elif has_t and want_tmpl:
-                want_vol = False
-            elif has_t:
-                want_vol = False
         mine = []
         if want_vol:
             mine.append(["volume", kind["resname"], round(rng.uniform(0.2, 1.5), 3)])
